@@ -303,7 +303,7 @@ def run_queries(ctx, rng, envs, trees, sh, nq, tag):
 
 def run(ctx):
     rng = ctx.rng
-    ntrees = ctx.n(220, 5000)
+    ntrees = ctx.n(220, 15000)
     nq = ctx.n(40, 80)
     terms, meta = [], []
     stats = {"history": 0, "setstate-stale": 0, "single-child-root": 0, "leaves>=2": 0}
